@@ -393,9 +393,10 @@ fn bearing_stream(rep: &mut Report, drv: &mut Driver, rng: &mut Rng, n: usize) -
 /// harnesses already converts a panic into a violation of its own; here their quick runs are repeated
 /// with this run's seed and every panic they meet is a violation of C01.
 fn sweep_other_generators(rep: &mut Report, tier: &str, seed: u64) {
-    let mut st = Stream::new("sweep/structured-generators", "oracle", "the document generators of C08 C09 C10 C11 C12 C13 C15 C16 C17 C18 C19 (their quick streams, seeded from this run) re-run in process: any panic met while transforming their documents is a C01 violation (other findings of those harnesses are theirs to report)");
+    let mut st = Stream::new("sweep/structured-generators", "oracle", "the document generators of C02 (hostile strings, byte-level input) C03 C04 C08 C09 C10 C11 C12 C13 C15 C16 C17 C18 C19 (their quick streams, seeded from this run) re-run in process: any panic met while transforming their documents is a C01 violation (other findings of those harnesses are theirs to report)");
     type Run = fn(&mut Report, &str, u64) -> Result<(), String>;
-    let runs: [(&str, Run); 11] = [
+    let runs: [(&str, Run); 14] = [
+        ("C02", crate::c02::run_c02), ("C03", crate::c03::run), ("C04", crate::c04::run),
         ("C08", crate::c08::run), ("C09", crate::c09::run), ("C10", crate::c10::run), ("C11", crate::c11::run), ("C12", crate::c12::run), ("C13", crate::c13::run),
         ("C15", crate::c15::run), ("C16", crate::c16::run), ("C17", crate::c17::run), ("C18", crate::c18::run), ("C19", crate::c19::run),
     ];
